@@ -177,6 +177,43 @@ func genDB(rt *rapid.T, max int) []Cmd {
 	return out
 }
 
+// swarmKinds: swarm-style variation of the operation mix. In half of the cases every distinct kind of the
+// weighted list is dropped with probability 1/3 (the kinds in keep always stay), so that some cases are
+// dense in a few kinds of operation instead of always using the whole alphabet.
+func swarmKinds(rt *rapid.T, kinds []string, keep ...string) []string {
+	if rapid.Bool().Draw(rt, "swarm-all") {
+		return kinds
+	}
+	var distinct []string
+	seen := map[string]bool{}
+	for _, k := range kinds {
+		if !seen[k] {
+			seen[k] = true
+			distinct = append(distinct, k)
+		}
+	}
+	drop := map[string]bool{}
+	flags := rapid.SliceOfN(rapid.IntRange(0, 2), len(distinct), len(distinct)).Draw(rt, "swarm-drop")
+	for i, k := range distinct {
+		if flags[i] == 0 {
+			drop[k] = true
+		}
+	}
+	for _, k := range keep {
+		delete(drop, k)
+	}
+	var out []string
+	for _, k := range kinds {
+		if !drop[k] {
+			out = append(out, k)
+		}
+	}
+	if len(out) == 0 {
+		return kinds
+	}
+	return out
+}
+
 func misspell(w string, how int) string {
 	if len(w) < 4 {
 		return w
